@@ -37,6 +37,17 @@ CHECKS = {
             'Generator construction rules (DESIGN 3.3) are preconditions enforced by construction; '
             'one known finding (nested bracket groups) is attributed by a differential AST variant.',
             'DESIGN.md 5 C02'),
+    'C03': ('exploration',
+            'Hypothesis canonical-form ASTs of the core sublanguage against a reference text model '
+            'of the documented rules; metamorphic composition laws over the wider grammar',
+            'Thousands (quick) / ~50k (thorough) core-sublanguage documents nested to depth 3, each '
+            'under 10 (quick) / all 40 (thorough) combinations of strict_latex_spaces x math_mode x '
+            'keep_braced_groups, compared string for string with a 150-line model that never sees '
+            'pylatexenc\'s tree; plus composition laws (paragraph / space joining, transparent '
+            'group and \\textbf) on generic generated blocks.',
+            'Canonical-form generator rules are preconditions; ~20 symbol characters are stated in '
+            'the model.',
+            'DESIGN.md 5 C03'),
     'C04': ('exploration',
             'Hypothesis (string, rule-list configuration) pairs against a reference model of the '
             'documented encoding loop; concatenation law; partial-encoder model; cached-helper '
